@@ -34,6 +34,37 @@ pub fn nesting_depth(src: &str) -> usize {
     best / 2
 }
 
+/// (prefix, repeated unit, suffix): texts without any nesting, whatever their length
+pub const FLOODS: &[(&str, &str, &str)] = &[
+    ("say 1\n", "(la) ", "\nsay 2\n"),
+    ("say 1\n", "(la)", "\nsay 2\n"),
+    ("say 1 ", "(la) ", "\nsay 2\n"),
+    ("say 1\n", "\n", "say 2\n"),
+    ("say 1\n", " \n", "say 2\n"),
+    ("say 1\n", "\t\r\n", "say 2\n"),
+    ("", "say 1\n", ""),
+    ("", "x is 1\n", ""),
+    ("", "say \"s\"\n", ""),
+    ("", "(c)\n", "say 1\n"),
+    ("", "if 1\nsay 1\n\n", ""),
+    ("", "f takes x\ngive back x\n\n", ""),
+    ("x is ", "a ", "\n"),
+    ("x is ", "é ", "\n"),
+    ("x is a ", ". ", "\n"),
+    ("x is a", "'s", "\n"),
+    ("x is a", "-a", "\n"),
+    ("x says ", "word ", "\n"),
+    ("rock x with ", "1, ", "1\n"),
+    ("say 1 plus ", "1, ", "1\n"),
+    ("say f taking ", "1 'n' ", "1\n"),
+    ("f takes ", "x, ", "y\nsay 1\n\n"),
+    ("say 1\n", "'", "\n"),
+    ("say 1 ", ", ", "\n"),
+    ("say \"", "a\n", "\"\n"),
+    ("say 1 (", "a\n", ")\n"),
+    ("say ", "\"a\" ", "\n"),
+];
+
 impl Prop for C01 {
     type Case = TextCase;
     fn id(&self) -> &'static str {
@@ -43,7 +74,7 @@ impl Prop for C01 {
         "texts: (a) enumerated: every single ASCII character, every pair (blank or newline between) and every triple of token-class \
          representatives (one alias per keyword class, word, proper word, number, string, comment, symbols, suffixes, error tokens); \
          (b) token soup; (c) token-level mutations (delete/duplicate/swap/splice/truncate/join lines) of the repository's test programs; \
-         (d) deep chains up to 300 levels. non-trivial = >= 3 coarse tokens; distinct by text"
+         (d) deep chains up to 400 levels; (e) 54 flat floods: 20 000 and 50 000 repetitions of one unit without any nesting (adjacent comments, blank lines, statements, one-line blocks, poetic words / periods / suffixes, list, argument and parameter entries, apostrophes, noise, lines inside one string or comment), parsed on an 8 MiB stack. non-trivial = >= 3 coarse tokens; distinct by text"
             .into()
     }
     fn assumptions(&self) -> Vec<String> {
@@ -107,6 +138,13 @@ impl Prop for C01 {
             v.push(TextCase { src: format!("{}say 1\n{}", "if x\n".repeat(d), "\nelse\nsay 2\n".repeat(d)) });
             v.push(TextCase { src: format!("x is {}", "abc ".repeat(d)) });
         }
+        // flat floods: tens of thousands of repetitions of one unit with no nesting at all (see `check`: these are
+        // parsed on a thread with an ordinary 8 MiB stack)
+        for (prefix, unit, suffix) in FLOODS {
+            for n in [20_000usize, 50_000] {
+                v.push(TextCase { src: format!("{}{}{}", prefix, unit.repeat(n), suffix) });
+            }
+        }
         (v, true)
     }
     fn check(&self, c: &TextCase) -> Outcome {
@@ -131,10 +169,22 @@ impl Prop for C01 {
                 prev_blank = first.is_empty();
             }
         }
-        let r = parse_rrss(&src, Some(parse_fuel_for(&src))).map(|r| match r {
-            Ok(p) => Ok(format!("{:?}", p)),
-            Err(e) => Err(e),
-        });
+        let parse = |src: &str| {
+            parse_rrss(src, Some(parse_fuel_for(src))).map(|r| match r {
+                Ok(p) => Ok(format!("{:?}", p)),
+                Err(e) => Err(e),
+            })
+        };
+        // A long text without nesting must not need more stack than a short one: it is parsed on a thread with the 8 MiB
+        // an ordinary main thread has (the shard's own stack is 1 GiB, for the deep chains).  Running out of it kills
+        // the process; the driver's post-mortem then names the case.
+        let r = if src.len() > 65_536 && nesting_depth(&src) <= 50 {
+            labels.push("long_flat_text_on_8MiB_stack".into());
+            let s2 = src.clone();
+            std::thread::Builder::new().stack_size(8 << 20).spawn(move || parse(&s2)).expect("spawn").join().expect("flat-text thread")
+        } else {
+            parse(&src)
+        };
         match r {
             Caught::Panic(m) => Outcome::fail(format!("parse panicked: {}", m)),
             Caught::Budget(b) => Outcome::fail(format!("parsing does not terminate within the fuel bound ({})", b)),
@@ -164,7 +214,7 @@ impl Prop for C01 {
         fnv_str(&c.src)
     }
     fn expected_labels(&self) -> Vec<String> {
-        let mut v: Vec<String> = ["ok", "non_ascii", "depth>50", "else_at_block_start"].iter().map(|s| s.to_string()).collect();
+        let mut v: Vec<String> = ["ok", "non_ascii", "depth>50", "else_at_block_start", "long_flat_text_on_8MiB_stack"].iter().map(|s| s.to_string()).collect();
         for code in [
             "MissingIDAfterCommonPrefix",
             "MutationOperandMustBeIdentifier",
